@@ -246,9 +246,18 @@ func (fr *FamilyRun) Divergences(classes ...string) []core.Failure {
 		if o.Res == nil {
 			continue
 		}
+		hasLockstep := false
+		for _, f := range o.Res.Fails {
+			if f.Class == "lockstep" {
+				hasLockstep = true
+			}
+		}
 		for _, f := range o.Res.Fails {
 			if !want[f.Class] {
 				continue
+			}
+			if want["lockstep"] && hasLockstep && (f.Class == "panic" || f.Class == "lockstep-under-panic") {
+				continue // the panic-free path already diverges: the injected runs only repeat that
 			}
 			fails = append(fails, core.Failure{
 				Key:    fr.Spec.Name + ":" + o.Key,
